@@ -131,22 +131,26 @@ func parseJournal(path string, ps int) (recs [][2]any, orig uint32, hot bool) {
 	if err != nil || len(b) < 28 || string(b[:8]) != "\xd9\xd5\x05\xf9\x20\xa1\x63\xd7" {
 		return nil, 0, false
 	}
-	nRec := binary.BigEndian.Uint32(b[8:])
 	orig = binary.BigEndian.Uint32(b[16:])
 	sector := int(binary.BigEndian.Uint32(b[20:]))
-	jps := int(binary.BigEndian.Uint32(b[24:]))
-	if jps != 0 {
+	if jps := int(binary.BigEndian.Uint32(b[24:])); jps != 0 {
 		ps = jps
 	}
 	if sector <= 0 || ps <= 0 {
 		return nil, orig, true
 	}
-	off := sector
-	for i := uint32(0); i < nRec && off+8+ps <= len(b); i++ {
-		pg := binary.BigEndian.Uint32(b[off:])
-		data := append([]byte(nil), b[off+4:off+4+ps]...)
-		recs = append(recs, [2]any{pg, data})
-		off += 8 + ps
+	// segments: each starts with a header at a sector boundary and holds the records its header counts
+	hdrOff := 0
+	for hdrOff+28 <= len(b) && string(b[hdrOff:hdrOff+8]) == "\xd9\xd5\x05\xf9\x20\xa1\x63\xd7" {
+		nRec := binary.BigEndian.Uint32(b[hdrOff+8:])
+		off := hdrOff + sector
+		for i := uint32(0); i < nRec && off+8+ps <= len(b); i++ {
+			pg := binary.BigEndian.Uint32(b[off:])
+			data := append([]byte(nil), b[off+4:off+4+ps]...)
+			recs = append(recs, [2]any{pg, data})
+			off += 8 + ps
+		}
+		hdrOff = (off + sector - 1) / sector * sector
 	}
 	return recs, orig, true
 }
@@ -411,14 +415,41 @@ var script = []hist.Step{
 	{Op: "rtx", Writes: map[uint32]uint64{1: 91, 2: 92}, NewSize: 2}, // recreated
 }
 
+// script2: a transaction whose journal is synced after 64 records and continues in a second segment: with 512-byte
+// pages and sectors the first segment ends exactly on a sector boundary (64 * 520 = 65 * 512)
+func script2() []hist.Step {
+	all := map[uint32]uint64{}
+	for pg := uint32(1); pg <= 70; pg++ {
+		all[pg] = 1000 + uint64(pg)
+	}
+	big := map[uint32]uint64{}
+	for pg := uint32(2); pg <= 68; pg++ {
+		big[pg] = 2000 + uint64(pg)
+	}
+	return []hist.Step{
+		{Op: "rtx", Writes: all, NewSize: 70},
+		{Op: "rtx", Writes: map[uint32]uint64{2: 1502}, NewSize: 70}, // the newest file, re-applied at Open, covers page 2 only
+		{Op: "rtx", Writes: big, NewSize: 70, JSplit: 64, Sector: 512},
+		{Op: "rtx", Writes: map[uint32]uint64{70: 2570}, NewSize: 70},
+		{Op: "rtx", Writes: map[uint32]uint64{3: 3003, 4: 3004, 5: 3005, 6: 3006}, NewSize: 70, JSplit: 3, Sector: 512, JMode: 1},
+	}
+}
+
 func localHistories(c *common.Ctx, r *common.Rand, idx int, wal bool) error {
+	script := script
+	if idx == -2 {
+		script = script2()
+	}
 	dir, err := os.MkdirTemp(c.OutDir, "c05-")
 	if err != nil {
 		return err
 	}
 	defer os.RemoveAll(dir)
 	rc := &recorder{src: filepath.Join(dir, "node"), max: 400}
-	cfg := hist.Config{PageSize: []int{512, 1024, 4096}[r.Intn(3)], AllowWAL: wal, ForceWAL: wal, AllowDrop: true, BackToRollback: wal && r.Bool()}
+	cfg := hist.Config{PageSize: []int{512, 1024, 4096}[r.Intn(3)], AllowWAL: wal, ForceWAL: wal, AllowDrop: true, BackToRollback: wal && r.Bool(), Clients: true}
+	if idx == -2 {
+		cfg.PageSize = 512
+	}
 	h := &hist.Runner{C: c, R: r, Cfg: cfg, Dir: rc.src, Name: "db", Ref: &lfs.Image{PageSize: cfg.PageSize}, OpenOpts: []lfs.Option{withRecorder(rc)}}
 	if err := h.Reopen(); err != nil {
 		return err
@@ -676,6 +707,9 @@ func Run(c *common.Ctx) error {
 	wcrashCases = c.Cases("cases_c05w", "Require Import LF.Model.PageDB LF.Model.Crash LF.Model.CrashWal.\nLocal Open Scope N_scope.", "wdisk * list N", "mismatches_wcrash")
 	wcrashCases.Shard = 150
 	if err := localHistories(c, c.Rng.Fork(), -1, true); err != nil {
+		return err
+	}
+	if err := localHistories(c, c.Rng.Fork(), -2, false); err != nil {
 		return err
 	}
 	for i := 0; i < c.Pick(4, 30); i++ {
